@@ -46,7 +46,8 @@ SAFE_BUILTINS = {"str": str, "int": int, "len": len, "range": range, "abs": abs,
                  "bool": bool, "list": list, "tuple": tuple, "set": set, "any": any, "all": all, "sorted": sorted,
                  "isinstance": isinstance, "True": True, "False": False, "None": None, "type": type, "dict": dict,
                  "float": float, "hex": hex, "enumerate": enumerate, "zip": zip, "reversed": reversed, "sum": sum,
-                 "Exception": Exception, "ValueError": ValueError, "map": map, "filter": filter, "iter": iter}
+                 "Exception": Exception, "ValueError": ValueError, "map": map, "filter": filter, "iter": iter, "frozenset": frozenset,
+                 "divmod": divmod, "ord": ord, "chr": chr, "bin": bin, "round": round, "repr": repr}
 
 
 def _next(it, *default):
@@ -459,7 +460,8 @@ class Evaluator:
             if f.id in self.genv and callable(self.genv[f.id]):
                 return self.genv[f.id](*args, **kwargs)
             if f.id in ("str", "int", "len", "range", "abs", "min", "max", "bool", "list", "tuple", "set", "any", "all",
-                        "sorted", "isinstance", "type", "dict", "float", "hex", "enumerate", "zip", "reversed", "sum", "map", "filter", "next", "iter"):
+                        "sorted", "isinstance", "type", "dict", "float", "hex", "enumerate", "zip", "reversed", "sum", "map", "filter", "next", "iter",
+                        "frozenset", "divmod", "ord", "chr", "bin", "round", "repr"):
                 try:
                     return SAFE_BUILTINS[f.id](*args, **kwargs)
                 except (ValueError, TypeError) as ex:
